@@ -163,7 +163,8 @@ def attach(owner, name, monitor):
         except BaseException as exc:
             if low:
                 sys.setrecursionlimit(col.high_limit)
-            if faults.fired() != fired0 or (low and isinstance(exc, RecursionError)):
+            if faults.fired() != fired0 or (low and isinstance(exc, RecursionError)) \
+                    or (col.env_fault and isinstance(exc, col.env_fault)):
                 # the call was cut short by the harness (injected exception / hardly any stack left):
                 # it is not judged; whatever is asked afterwards is
                 col.counters['calls_cut_short_not_judged'] += 1
